@@ -41,8 +41,24 @@ ObsMatches(o) ==
     /\ {[k |-> x.k, tag |-> x.tag] : x \in S2(o.loose)} = {[k |-> k, tag |-> loose'[k]] : k \in {q \in Keys : loose'[q] # "absent"}}
     /\ {Plain(r) : r \in S2(o.rows)} = idx'
     /\ {[p |-> x.p, len |-> x.len] : x \in S2(o.packs)} = {[p |-> p, len |-> SeqLen(pack'[p])] : p \in pex'}
+    /\ S2(o.locks) = locked'
 
-Step(ln) ==
+(* calls refused because of a stale lock file, and the environment steps that put / remove one *)
+LockStep(ln) ==
+    LET o == ln.op
+        h == o.h
+        ks == o.keys
+    IN CASE o.name = "stalelock" -> IF locked # {} THEN /\ last' = Rec("stalelock", "-", <<>>, {}, "") /\ UNCHANGED <<core, locked>> ELSE LockStale
+         [] o.name = "unlock"    -> IF locked = {} THEN /\ last' = Rec("unlock", "-", <<>>, {}, "") /\ UNCHANGED <<core, locked>> ELSE Unlock
+         [] o.name = "addpack"   -> AddToPackRefused(h, ks, o.z, o.noholes, o.twice)
+         [] o.name = "pack"      -> PackRefused(h, o.mode, o.perpack)
+         [] o.name = "import"    -> ImportRefused(h, S2(ks), o.z, o.samehash, S2(o.src))
+         [] OTHER                -> FALSE
+WritesPacks(ln) == \/ ln.op.name = "addpack" /\ ln.op.keys # <<>>
+                   \/ ln.op.name = "pack" /\ (LoosePresent \ KeysOf(V(ln.op.h))) # {}
+                   \/ ln.op.name = "import" /\ ImportFresh(ln.op.h, S2(ln.op.keys), ln.op.samehash, S2(ln.op.src)) # {}
+
+PlainStep(ln) ==
     LET o == ln.op
         h == o.h
         ks == o.keys
@@ -71,6 +87,11 @@ Step(ln) ==
          [] o.name = "list"      -> List(h)
          [] o.name = "listpart"  -> ListPart(h)
          [] OTHER                -> FALSE
+
+Step(ln) == IF ln.op.name \in {"stalelock", "unlock"} \/ (ln.op.raised = "FileExistsError" /\ ln.op.name # "initagain")
+               THEN LockStep(ln)
+               ELSE /\ PlainStep(ln) /\ UNCHANGED locked
+                    /\ WritesPacks(ln) => ~Blocked(ln.op.h)
 
 CInit == /\ tid \in 1..NTraces
          /\ l = 1
